@@ -293,6 +293,7 @@ bool DTDScanner::expandPERef( const   bool    scanExternal
             fScanner->emitError(XMLErrs::RecursiveEntity, decl->getName());
             return false;
         }
+        fScanner->checkEntityExpansionLimit();
 
         //
         //  If the caller wants us to scan the external entity, then lets
@@ -364,6 +365,7 @@ bool DTDScanner::expandPERef( const   bool    scanExternal
         //
         if (!fReaderMgr->pushReader(valueReader, decl))
             fScanner->emitError(XMLErrs::RecursiveEntity, decl->getName());
+        fScanner->checkEntityExpansionLimit();
     }
 
     return true;
@@ -2059,6 +2061,7 @@ DTDScanner::scanEntityRef(XMLCh& firstCh, XMLCh& secondCh, bool& escaped)
             fScanner->emitError(XMLErrs::RecursiveEntity, decl->getName());
             return EntityExp_Failed;
         }
+        fScanner->checkEntityExpansionLimit();
 
         // If it starts with the XML string, then parse a text decl
         if (fScanner->checkXMLDecl(true))
@@ -2090,6 +2093,7 @@ DTDScanner::scanEntityRef(XMLCh& firstCh, XMLCh& secondCh, bool& escaped)
         //
         if (!fReaderMgr->pushReader(valueReader, decl))
             fScanner->emitError(XMLErrs::RecursiveEntity, decl->getName());
+        fScanner->checkEntityExpansionLimit();
     }
 
     return EntityExp_Pushed;
